@@ -34,6 +34,22 @@ PROPS = {
                 gen=parse_family('C03', 1500, 40000), flavours=['c'],
                 rule='as C02 with one_parse=0: set of trees denoted by the DAG vs set of translations of all derivations',
                 assumptions=COMMON_ASSUME),
+    'C04': dict(level='proof', theorem_modules=['C04'], min_theorems=6, tags=['C04'], crash_counts=True,
+                gen=parse_family('C04', 1500, 40000), flavours=['c'],
+                rule='random grammars with costs 0-5 (ties included); sentences <= 7 tokens; cost flag on, one_parse in {0,1}, parse_free given or NULL; denoted set vs argmin of total cost over all translations, every cost field vs the additive law',
+                assumptions=COMMON_ASSUME + ['prune theorems are about the Lean pruning model of a forest (Spec/Forest.lean); its tie to find_minimal_translation is the sampled comparison of results']),
+    'C06': dict(level='proof', theorem_modules=['C01'], min_theorems=8, tags=['C06'], crash_counts=True,
+                gen=parse_family('C06', 1500, 40000, maxlen=9), flavours=['c'],
+                rule='grammars with and without error rules; non-sentences (mutated sentences, prefixes, random strings); recovery off (exact argument tuple) and on (well-formedness of every callback, strictly increasing error tokens, first error token = model)',
+                assumptions=COMMON_ASSUME + ['firstError_iff_viable is proved for lookahead 0/1 under productivity of every nonterminal (strict grammars)']),
+    'C07': dict(level='proof', theorem_modules=['C01', 'C02'], min_theorems=8, tags=['C07'], crash_counts=True,
+                gen=parse_family('C07', 1500, 40000, maxlen=9), flavours=['c'],
+                rule='grammars with 0..3 error rules, non-sentences <= 9 tokens, recovery_match 1..5, one/all parses, lookahead 0-2: return code, non-NULL tree, tree vs translations of the repaired input (read off the model parse list), ignored-token accounting, callbacks and final parse list vs the step-for-step recovery model',
+                assumptions=COMMON_ASSUME + ['the recovery search (Model/Recovery.lean) is an executable model validated by correspondence; termination/minimality theorems about it are not yet proved (see DESIGN.md)']),
+    'C09': dict(level='proof', theorem_modules=['C01'], min_theorems=8, tags=['C09'], crash_counts=True,
+                gen=parse_family('C09', 1200, 30000), flavours=['c'],
+                rule='each input parsed at lookahead -3,0,1,2,7 and at several debug levels with otherwise identical flags: all observables (rc, callbacks, ambiguity flag, denoted tree set with costs) must be identical; goto-cache self-check hook on every parse',
+                assumptions=COMMON_ASSUME + ['verdict_indep_of_la01 / firstError_indep_of_la01 proved for levels 0/1; level 2 only through cross-level comparison']),
     'C05': dict(level='proof', theorem_modules=['C05'], min_theorems=4, tags=['C05'], crash_counts=True,
                 gen=parse_family('C05', 1500, 40000), flavours=['c'],
                 rule='ambiguity flag vs number of derivations / distinct translations, one_parse in {0,1}',
